@@ -1,6 +1,6 @@
 (* C03 Match eligibility and limit-price protection. *)
 From ATS Require Import Prelude Dec DecFacts Uuid Semver Types Contract Tactics Spec Inv InvAsk InstProofs AskProofs
-  BidFacts InvBid InvStep ExitProofs Ledger MsgProofs MatchProofs AdmitProofs MatchLive DivFacts ProRata.
+  BidFacts InvBid InvStep ExitProofs Ledger MsgProofs MatchProofs AdmitProofs MatchLive DivFacts ProRata Known.
 
 (* A match succeeds ONLY IF: sender is an executor, no funds; both ids canonical and both orders on the book; equal
    quote denominations; the ask plain or approved (never pending); ask price <= bid price; the execution price equals
@@ -82,3 +82,19 @@ Proof.
   exists xp, gross_d, gross. repeat split; try assumption; eapply whole_total_within_a_unit; eauto.
 Qed.
 Print Assumptions C03_total_within_a_unit.
+
+(* Inside K_inexact the "only if" direction is FALSE of the code (recorded finding, corpus/known/k_inexact_match.hist):
+   a reachable state satisfying the invariant and a match that is accepted although execution price * size is not a
+   whole number.  The side condition of C03_only_if cannot be dropped. *)
+Theorem C03_refuted_in_K_inexact :
+  exists e st sender ask_id bid_id price size p,
+    Inv st /\ dec_parse price = Some p /\
+    is_ok (execute FX e st sender [] (ExecuteMatch ask_id bid_id price size)) = true /\
+    (d_mant p * size) mod 10 ^ d_scale p <> 0.
+Proof.
+  exists k_env, (run (k_start k_inexact_inst) k_inexact_book), "exec", kA, kB, "0.999999999999999999", 1000000000000000001,
+         (mkdec false 999999999999999999 18).
+  split; [exact k_inexact_inv|]. split; [vm_compute; reflexivity|]. split; [exact (proj1 k_inexact_witness)|].
+  vm_compute. discriminate.
+Qed.
+Print Assumptions C03_refuted_in_K_inexact.
